@@ -3,8 +3,8 @@
  S  spec/C15_Sat.tla          every CNF of a small universe is an initial state; reference refutation procedure
                               (saturation by resolution); invariants ResolutionSound, RefutationComplete,
                               CertificateAccepted, CertificateOnlyIfUnsat, ReplayFaithful; emits every CNF as a vector
- S  spec/C15_Tseitin.tla      every formula of a small universe; reference Tseitin encoding; RefTheoremValid,
-                              RefEquisat, RefDefinitional; emits every formula
+ S  spec/C15_Tseitin.tla      every formula of a small universe + the family Repeats (X op X in every 0-2 connective context);
+                              reference Tseitin encoding; RefTheoremValid, RefEquisat, RefDefinitional; emits every formula
  I  spec/C15_SatImpl.tla      solve_cnf AS CODED (C15_SatAlgo.tla) from every emitted CNF: VerdictCorrect,
                               CertificateValid, Terminates, Progress, TrailConsistent, ReasonsAreUnit, LearnedEntailed;
                               Dedup (is the duplicate-literal repair present?) comes from a behavioural probe of the code;
@@ -194,7 +194,9 @@ def run(rep, tier):
                 "literals, empty clause, empty CNF; and all clause sets over 3 variables) as initial states of the reference "
                 "(S) and of the algorithm as coded (I); every one is replayed through sat.solve_cnf, plus seeded random CNFs "
                 "up to 12 variables / 60 clauses (35% near the satisfiability threshold). TLC enumerates every formula up to "
-                "the connective bound; all small ones and a seeded sample of the larger ones plus random ones go through "
+                "the connective bound and the family of formulas with a repeated sub-formula (X op X for every connective, X an atom / "
+                "negation / compound, in every context of 0-2 connectives: the inputs whose Tseitin clauses have repeated or "
+                "complementary literals); all small ones, the whole family, a seeded sample of the larger ones plus random ones go through "
                 "tseitin.encode, the checker, convert_cnf and proofrec.solve_cnf. Non-trivial = the call returned a verdict "
                 "whose certificate was replayed in TLA+ (assignment against every clause / resolution trace step by step / "
                 "truth tables), or a time-out explained by a loop of the I-model; distinct by input and recorded result.")
@@ -235,19 +237,24 @@ def run(rep, tier):
         out["nvec"] = sum(1 for _ in open(vec))
         ev, sev = wd / "ev_tseitin.ndjson", wd / "ev_tseitin_solve.ndjson"
         rev, rsev = wd / "ev_rformulas.ndjson", wd / "ev_rformulas_solve.ndjson"
+        pev, psev = wd / "ev_repeats.ndjson", wd / "ev_repeats_solve.ndjson"
         if quick:
-            # all formulas with <= 1 connective, a seeded sample of 170 of the 2-connective ones, 30 random larger ones
-            jobs = [("c15", ["tseitin", vec, ev, sev, seed(), 1, 170, "prove"], env),
-                    ("c15", ["rformulas", 30, rev, rsev, seed(), "prove"], env)]
+            # all formulas with <= 1 connective, a seeded sample of 110 of the 2-connective ones, 30 random larger ones, and
+            # EVERY formula of the repeated-sub-formula family (X op X in every 0-2 connective context: 516; their proofs are
+            # checked with the macros of level 1 trusted, as the repository's own test does; thorough expands every macro)
+            jobs = [("c15", ["tseitin", vec, ev, sev, seed(), 1, 110, "prove"], env),
+                    ("c15", ["rformulas", 30, rev, rsev, seed(), "prove"], env),
+                    ("c15", ["repeats", vec, pev, psev, 1], env)]
         else:
             jobs = [("c15", ["tseitin", vec, ev, sev, seed(), 2, 1800, "prove"], env),
-                    ("c15", ["rformulas", 1000, rev, rsev, seed(), "prove"], env)]
-        run_drivers_parallel(jobs, timeout=6000, max_workers=2)
-        evs = _merge([ev, rev], wd / "all_tseitin.ndjson")
+                    ("c15", ["rformulas", 1000, rev, rsev, seed(), "prove"], env),
+                    ("c15", ["repeats", vec, pev, psev, 0, "prove"], env)]
+        run_drivers_parallel(jobs, timeout=6000, max_workers=3 if quick else 2)
+        evs = _merge([ev, rev, pev], wd / "all_tseitin.ndjson")
         out["evs"] = evs
         out["T"] = _validate_with_selftest(rep, "C15_TseitinTrace", evs, _corrupt_tseitin(evs), wd / "allst_tseitin.ndjson",
                                            wd / "tv_tseitin", 1 if quick else 2)
-        sevs = _merge([sev, rsev], wd / "all_tseitin_cnf.ndjson")
+        sevs = _merge([sev, rsev, psev], wd / "all_tseitin_cnf.ndjson")
         out["sevs"] = sevs
         out["Ts"] = validate_trace("C15_SatTrace", wd / "all_tseitin_cnf.ndjson", wd=wd / "tv_tseitin_cnf", nchunks=1)
         return out
@@ -349,7 +356,13 @@ def run(rep, tier):
         require(sum(tr[k]["nontrivial"] for k in tr if k.startswith("solve_")) >= 0.85 * sum(tr[k]["events"] for k in tr if k.startswith("solve_")),
                 "C15: too few solve events examined (vacuity guard)")
     if not ts_res["S"].violated:
-        require(tr["tseitin"]["nontrivial"] >= (200 if quick else 2500), "C15: too few examined Tseitin theorems (vacuity guard)")
+        require(tr["tseitin"]["nontrivial"] >= (600 if quick else 5000), "C15: too few examined Tseitin theorems (vacuity guard)")
+        n_rep = sum(1 for e in ts_res["evs"] if e["src"] == "rep" and e["kind"] == "tseitin")
+        n_replit = sum(1 for e in ts_res["evs"] if e["kind"] == "tseitin" and any(len({l[0] for l in c}) < len(c) for c in e["cnf"]))
+        rep.notes["counts"]["tseitin_repeated_subformula_family"] = n_rep
+        rep.notes["counts"]["tseitin_cnfs_with_repeated_or_complementary_literal"] = n_replit
+        # (guard on the INPUTS only: how many CNFs keep a repeated literal depends on the code under test)
+        require(n_rep >= (500 if quick else 3000), "C15: the repeated-sub-formula family was not replayed (vacuity guard)")
 
     # ---- second specification mutant: the algorithm with a back-jump to the HIGHEST level of the learned clause keeps the
     # trail and must not terminate (run on the model of the repaired code; on a tree without the repair only in thorough)
